@@ -482,6 +482,11 @@ def _format(ex, obj, args, kw, line):
 
 @method("join")
 def _join(ex, obj, args, kw, line):
+    from .interp import OctetList
+    if isinstance(args[0], OctetList):
+        if obj != b"":
+            raise EngineLimit("join of a symbolic list with a separator")
+        return SBytes(sym.BOL(args[0].src.t))
     items = ex.iterate(args[0], line)
     if isinstance(obj, bytes):
         if not all(isinstance(x, (bytes, SBytes)) for x in items):
@@ -525,6 +530,21 @@ def _insert(ex, obj, args, kw, line):
     if isinstance(obj, list) and isinstance(args[0], int):
         obj.insert(args[0], args[1])
         return None
+    if isinstance(obj, SIntList) and obj.width == 1 and isinstance(args[0], int) and args[0] in (0, 1) and _isint(args[1]):
+        if ex.interference is not None:
+            ex.interference.on_mutate(ex, obj, line)
+        args = [args[0], ex.name_int(args[1], "elt")]
+        if args[0] == 0:
+            obj.set_terms([sym.LCONS(T(args[1]), obj.t)])
+            return None
+        # insert(1, v): [l[0], v] + l[1:]  (an empty list takes v at the end, as Python does)
+        if ex.branch_pruned(SInt(sym.LLEN(obj.t)) >= 1):
+            head = SInt(sym.LAT(obj.t, 0))
+            tail = ex.list_tail(obj, line)
+            obj.set_terms([sym.LCONS(T(head), sym.LCONS(T(args[1]), tail.t))])
+        else:
+            obj.set_terms([sym.LAPP(obj.t, T(args[1]))])
+        return None
     raise EngineLimit("insert on %s" % type(obj).__name__)
 
 
@@ -543,6 +563,14 @@ def _pop(ex, obj, args, kw, line):
         if not obj or not (-len(obj) <= i < len(obj)):
             ex.raise_("IndexError", line)
         return obj.pop(i)
+    if isinstance(obj, SIntList) and obj.width == 1 and args == [0]:
+        if ex.interference is not None:
+            ex.interference.on_mutate(ex, obj, line)
+        if not ex.branch_pruned(SInt(sym.LLEN(obj.t)) >= 1):
+            ex.raise_("IndexError", line)
+        head = SInt(sym.LAT(obj.t, 0))
+        obj.set_terms([ex.list_tail(obj, line).t])
+        return head
     raise EngineLimit("pop on %s" % type(obj).__name__)
 
 
